@@ -1,7 +1,7 @@
 (* C05 property theorems.  Nothing but statements closed by `exact`, each followed by Print Assumptions.
    Representation: 0 is the field zero, i in [1,N] (N = q-1) is g^i; val/phi map a representation to the ring. *)
 From Coq Require Import ZArith List.
-From C05 Require Import Model Checker ProofsZech ProofsArr ProofsField ProofsIrred ProofsProps.
+From C05 Require Import Model Checker ExtModel ProofsZech ProofsArr ProofsField ProofsIrred ProofsExt ProofsProps.
 Local Open Scope Z_scope.
 
 Theorem C05_zech_macros_are_ring_operations : Zech_ops_stmt.       Proof. exact zech_ops. Qed.
@@ -26,3 +26,5 @@ Theorem C05_modulus_irreducible_when_checked : Modulus_irreducible_stmt.     Pro
 Print Assumptions C05_modulus_irreducible_when_checked.
 Theorem C05_generator_primitive_when_checked : Generator_primitive_stmt.     Proof. exact generator_primitive. Qed.
 Print Assumptions C05_generator_primitive_when_checked.
+Theorem C05_extension_ops_are_quotient_ring_operations : Ext_ops_stmt.     Proof. exact ext_ops. Qed.
+Print Assumptions C05_extension_ops_are_quotient_ring_operations.
